@@ -864,7 +864,7 @@ def run_e2e(ctx, cov, dist):
     for n in ("pdcp", "rpdcp"):
         if not os.path.lexists(os.path.join(bindir, n)):
             os.symlink(os.path.join(repo, "src/pdsh/pdsh"), os.path.join(bindir, n))
-    nruns = 10 if ctx.quick() else 60
+    nruns = 11 if ctx.quick() else 60
     future = FUTURE
     dist["e2e_runs"] = 0
     for k in range(nruns):
@@ -888,7 +888,7 @@ def run_e2e(ctx, cov, dist):
         # -p on and off in both directions, no -r for plain files
         plan = [dict(p=1, shape="emptydir"), dict(p=1, shape="any"), dict(p=0, shape="file"), dict(p=0, shape="any"),
                 dict(p=1, shape="two"), dict(p=1, shape="file"), dict(p=0, shape="twofiles-destfile"), dict(p=0, shape="unreadable"),
-                dict(p=1, shape="newname"), dict(p=1, shape="tree")]
+                dict(p=1, shape="newname"), dict(p=1, shape="tree"), dict(p=0, shape="reverse-blocked")]
         shape = "any"
         if k < len(plan):
             p, shape = plan[k]["p"], plan[k]["shape"]
@@ -902,6 +902,12 @@ def run_e2e(ctx, cov, dist):
             # is a directory (-y only for more than one list entry)
             reverse = False
             trees = [Node(b"file.txt", "f", 0o640, 1300000001, gen=(79, pcp.BUFSIZ + 5))]
+            r = 0
+        elif shape == "reverse-blocked":
+            # rpdcp of two plain files from three hosts; locally the name file.txt.h2 is taken by a directory: "a file that
+            # cannot be written is reported for that host without corrupting any other file"
+            reverse = True
+            trees = [Node(b"file.txt", "f", 0o640, 1300000001, gen=(84, pcp.BUFSIZ + 1)), Node(b"data_2", "f", 0o600, 1300000002, gen=(85, 20))]
             r = 0
         elif shape == "tree":
             # a fixed tree with -r in a REVERSE copy: nested and empty directories, a file of several blocks
@@ -946,6 +952,9 @@ def run_e2e(ctx, cov, dist):
             else:
                 os.makedirs(os.path.join(w, h, "dst"))
         os.makedirs(os.path.join(w, "out"))
+        blocked_host = "h2" if shape == "reverse-blocked" else None
+        if blocked_host:
+            os.makedirs(os.path.join(w, "out", "file.txt." + blocked_host))
         for root in roots:
             os.makedirs(root, exist_ok=True)
             for t in trees:
@@ -983,6 +992,8 @@ def run_e2e(ctx, cov, dist):
                             os.makedirs(os.path.join(w, h, "dst"))
                     shutil.rmtree(os.path.join(w, "out"), ignore_errors=True)
                     os.makedirs(os.path.join(w, "out"))
+                    if blocked_host:
+                        os.makedirs(os.path.join(w, "out", "file.txt." + blocked_host))
                     open(log, "w").close()
                     subprocess.run(["chown", "-R", "1000:1000", w])
                     continue
@@ -1029,6 +1040,16 @@ def run_e2e(ctx, cov, dist):
             if destfile_host.encode() not in pr.stderr and pr.returncode == 0:
                 ctx.offender("e2e:unreported", "two sources copied to a destination that is a regular file on target "
                              "%s: no error was reported for that target" % destfile_host, cj)
+        elif blocked_host:
+            errl = [l for l in pr.stderr.split(b"\n") if l.strip()]
+            if not any(blocked_host.encode() in l for l in errl):
+                ctx.offender("e2e:unreported", "rpdcp: the local name file.txt.%s is taken by a directory: no error was "
+                             "reported for that host (stderr %r)" % (blocked_host, pr.stderr[-200:]), cj)
+            if any(h.encode() + b":" in l for l in errl for h in HOSTS3 if h != blocked_host):
+                ctx.offender("e2e:reported-error", "rpdcp: an error is reported for a host whose files can all be written: %r"
+                             % pr.stderr[-300:], cj)
+            if not os.path.isdir(os.path.join(w, "out", "file.txt." + blocked_host)):
+                ctx.offender("e2e:fidelity", "rpdcp: the directory in the way of file.txt.%s was replaced" % blocked_host, cj)
         elif pr.returncode != 0 or pr.stderr.strip():
             ctx.offender("e2e:reported-error", "pdcp/rpdcp reports an error on a copy that must succeed (rc=%d): %s" %
                          (pr.returncode, pr.stderr.decode("latin-1")[-300:]), cj)
@@ -1061,7 +1082,8 @@ def run_e2e(ctx, cov, dist):
                 snap = pcp.snapshot(os.path.join(w, "out"))
                 stoks = []
                 for t in trees:
-                    stoks += tokens(t, name=t.name + b"." + h.encode())
+                    if not (h == blocked_host and t.name == b"file.txt"):
+                        stoks += tokens(t, name=t.name + b"." + h.encode())
             else:
                 snap = pcp.snapshot(os.path.join(w, h, "dst"))
                 stoks = []
